@@ -151,6 +151,8 @@ def run(ctx):
     cases += families.constant_operand_cases(rnd, 150 if ctx.tier == "quick" else 1500, prefix="K")
     if changed:
         cases += families.constant_operand_cases(rnd, 300, prefix="HK", funcs=sorted({s[0] for s in changed}))
+    # Python scalar operands (values, signed zeros, sequences of Python-equal scalars)
+    cases += families.scalar_operand_cases(rnd, 200 if ctx.tier == "quick" else 2000)
     family.evaluate(ctx, cases, want=("oracle", "traced"))
     ctx.sample({"case": cases[0]["impl"], "inputs": {k: v["shape"] for k, v in cases[0]["inputs"].items()}, "dtype": cases[0]["meta"]["dtype"]})
     ctx.coverage.update({
